@@ -162,7 +162,7 @@ def require_roots(file_abs, lua_path):
 INC_COMPONENTS = ['ok', 'sub', 'deep', 'canary', 'init', 'x', '.', '..', '..',
                   '..', '', 'cousin', 'game', 'carts', 'carts-old', 'cartsx',
                   'proj', 'projx', 'proj-old', 'home', 'elsewhere', 'abs',
-                  'libs', 'libsx', 'work', 'okcart']
+                  'libs', 'libsx', 'work', 'okcart', '~', '~', '~root']
 
 
 def _perturb(rng, path):
@@ -199,7 +199,8 @@ def gen_c12(rng, tier, index):
     # choose a target to aim at: a canary (mostly) or an inside file
     sc['aim'] = rng.random()
     sc['aim_index'] = rng.randrange(10**6)
-    sc['style'] = rng.choice(['rel', 'rel', 'rel', 'abs', 'random', 'random'])
+    sc['style'] = rng.choice(['rel', 'rel', 'rel', 'abs', 'random', 'random',
+                              'tilde'])
     sc['perturb_seed'] = rng.randrange(10**9)
     if mode == 'include':
         sc['route'] = rng.choice(['from_file', 'from_file', 'listlua',
@@ -290,6 +291,14 @@ def _derive_S(sc, w, info):
         tgt = ins[sc['aim_index'] % len(ins)]
     if sc['style'] == 'abs':
         s = '$ROOT/' + tgt
+    elif sc['style'] == 'tilde':
+        # home-relative spelling of an absolute path
+        home = os.environ.get('HOME') or w.p('home')
+        s = '~/' + os.path.relpath(w.p(tgt), home)
+        if sc['mode'] == 'require' and s.endswith('.lua') and \
+                rng.random() < 0.6:
+            s = s[:-4]
+        return s if rng.random() < 0.7 else _perturb(rng, s)
     else:
         s = os.path.relpath(w.p(tgt), w.p(base))
     if sc['mode'] == 'require':
@@ -599,6 +608,30 @@ def gen_c20(rng, tier, index):
     incs = [i for i, ln in enumerate(lines) if ln['t'] == 'inc']
     if incs and rng.random() < 0.2:
         sc['enoent'] = lines[rng.choice(incs)]['target']
+    elif incs and rng.random() < 0.3:
+        # a second load after every target was rewritten in place
+        t2 = []
+        for t, tg in enumerate(targets):
+            n = dict(tg)
+            if tg['kind'] == 'lua':
+                n['lines'] = mk_lines('u%d' % t, rng.choice([0, 1, 2, 3]))
+                n['final_newline'] = True
+            else:
+                keep = len(tg['tabs']) if rng.random() < 0.6 else \
+                    rng.choice([1, 2, 3, 4, 5])
+                n['tabs'] = [mk_lines('u%dtab%d' % (t, k),
+                                      rng.choice([0, 1, 2]))
+                             for k in range(keep)]
+            n.pop('nested', None)
+            t2.append(n)
+        sc['second'] = {'targets': t2}
+        if rng.random() < 0.3:
+            l2 = [dict(ln) for ln in lines]
+            for ln in l2:
+                if ln['t'] == 'inc' and \
+                        targets[ln['target']]['kind'] != 'lua':
+                    ln['tab'] = rng.choice([None, 0, 1, 2])
+            sc['second']['lines'] = l2
     return sc
 
 
@@ -660,11 +693,38 @@ def _splice_model(sc):
 
 
 def execute_splice(sc):
+    """One or two loads on the same store; before the second load the
+    targets are rewritten in place (same paths, new contents), so a load must
+    reflect the files as they are *now*."""
+    res = core.new_result()
+    with world.World(env={'HOME': '$ROOT/home'}) as w:
+        views = [sc]
+        if sc.get('second'):
+            views.append(dict(sc, targets=sc['second']['targets'],
+                              lines=sc['second'].get('lines', sc['lines']),
+                              enoent=None))
+        for rno, view in enumerate(views):
+            _splice_round(w, view, res, rno)
+            if res['violations']:
+                if rno:
+                    for v in res['violations']:
+                        v['vclass'] += ':after-rewrite'
+                        v['sig'] += '|after-rewrite'
+                    core.bump(res['probes'], 'violation-only-on-second-load')
+                break
+        if len(views) > 1 and not res['violations']:
+            core.bump(res['probes'], 'second-load-after-rewrite')
+    return res
+
+
+def _splice_round(w, sc, res, rno):
     from pico8 import tool
     from pico8.game import file as pfile
-    res = core.new_result()
     ev = res['events']
-    with world.World(env={'HOME': '$ROOT/home'}) as w:
+    cwd0 = os.getcwd()
+    w.out.seek(0)
+    w.out.truncate(0)
+    if True:
         base = 'work/proj'
         w.mkdir(base)
         w.mkdir('home')
@@ -802,11 +862,12 @@ def execute_splice(sc):
             core.bump(res['probes'], 'include-on-last-line')
         if any(t.get('nested') for t in sc['targets']) and n_inc:
             core.bump(res['probes'], 'nested-include-present')
-        res['states'].append('splice|%s|%s|%s' % (sc['route'], shape, outcome))
-        res['nontrivial'] = n_inc > 0
-        ev.append(('splice', sc['route'], shape, outcome, opens,
+        res['states'].append('splice|%s|%s|%s%s' % (
+            sc['route'], shape, outcome, '|reload' if rno else ''))
+        res['nontrivial'] = res['nontrivial'] or n_inc > 0
+        ev.append(('splice', rno, sc['route'], shape, outcome, opens,
                    core.sha(got or b'')[:16]))
-    return res
+        os.chdir(cwd0)
 
 
 # ---------------------------------------------------------------------------
